@@ -245,7 +245,7 @@ def all_families(nws=(1, 2, 3)):
         out += failure_cases(nw)
         out += [request_reply(nw, 1), request_reply(nw, 2), message_during_spawn(nw), send_to_finished(nw), filter_fails(nw),
                 abandoned_await(nw), abandoned_await_msg(nw), fail_multi_worker_select(nw), fail_already_failed_multi(nw),
-                shared_target(nw), shared_target(nw, True), shared_failing_target(nw), burst(40, nw), reawait(nw, True), reawait(nw, False)]
+                shared_target(nw), shared_target(nw, True), shared_failing_target(nw), await_window(nw), burst(40, nw), reawait(nw, True), reawait(nw, False)]
         out += heap_cases(nw)
         out += [bin_final_send(nw), bin_final_send_tuple(nw)]
         out += session_cases(nw)
@@ -776,6 +776,17 @@ def fail_already_failed_multi(nw=2):
                [select(1, recv(("bin",))), ret(OKE)],
                [select(1, tmo(2)), ret(c(I(1)))]]
     return meta(scenario("fail_already_failed_multi_w%d" % nw, scripts, nw=nw, maxtick=2), False, False, ["C15", "C05"])
+
+
+def await_window(nw=2):
+    # one select awaits processes on different workers; one of them finishes AFTER its worker answered the query
+    # with "not finished" and BEFORE the other worker's answer has been handled (seeded change C04-3: the
+    # environment kept the first report per process while the initial await was pending, so the completion was
+    # dropped and the awaiter parked for ever); the other target never finishes
+    scripts = [[spawn(1, 2), spawn(2, 3), spawn(3, 3), send(1, c(I(7))), select(4, aw(1), aw(2), aw(3)), ret(r(4))],
+               [select(1, recv()), ret(r(1))],
+               [select(1, recv(("bin",))), ret(OKE)]]
+    return meta(scenario("await_window_w%d" % nw, scripts, nw=nw, maxpid=4), True, False, ["C04", "C05", "C03"], large=True)
 
 
 def shared_failing_target(nw=2):
